@@ -1224,6 +1224,19 @@ func c11R6(c *Ctx, r *Report) {
 							hasErr = true
 						}
 					}
+					// a local closure that captures the items (`failAll := func(cause error) …`)
+					if mc, isMC := through(cl.Call.Value).(*ssa.MakeClosure); isMC {
+						for _, bv := range mc.Bindings {
+							if through(bv) == ssa.Value(items) {
+								hasItems = true
+							}
+							if al, isAl := bv.(*ssa.Alloc); isAl {
+								if st := storesTo(f, al); len(st) == 1 && through(st[0].Val) == ssa.Value(items) {
+									hasItems = true
+								}
+							}
+						}
+					}
 					// the helper maps every item to the error
 					okS = hasItems && hasErr && mapsEveryItem(cl.Call.StaticCallee())
 				}
